@@ -3123,11 +3123,17 @@ func (b *Bundle) Compile(log logger.Log, timer *helpers.Timer, mangleCache map[s
 					cssUsedLocalNames map[string]bool,
 				)) {
 					// Serialize all accesses to the mangle cache in entry point order for determinism
+					verif.Gate("link.excl.enter", verifLinkKey(b.fs, i))
 					serializer.Enter(i)
+					verif.Event("link.excl.run", "cwd", b.fs.Cwd(), "i", i)
+					defer verif.Gate("link.post", verifLinkKey(b.fs, i))
 					defer serializer.Leave(i)
+					defer verif.Event("link.excl.leave", "cwd", b.fs.Cwd(), "i", i)
+					defer verif.Gate("link.excl.leave", verifLinkKey(b.fs, i))
 					cb(mangleCache, cssUsedLocalNames)
 				}
 
+				verif.Gate("link.start", verifLinkKey(b.fs, i))
 				resultGroups[i] = link(&optionsClone, forked, log, b.fs, b.res, files, entryPoints,
 					b.uniqueKeyPrefix, findReachableFiles(files, entryPoints), dataForSourceMaps)
 				timer.Join(forked)
